@@ -87,6 +87,8 @@ fn data_stream(sess: &mut Session) -> Vec<String> {
 
 /// returns Ok(accepted?) or Err(explanation)
 fn roundtrip(lines: &[String], replies: &[String], seed: u64, run: bool, stats: &mut (u64, u64)) -> Result<bool, String> {
+    // a fifth of the cases go through a little editing session first (decided from the text itself)
+    let churn = crate::util::hash_str(&lines.join("\n")) % 5 == 0;
     let mut a = Session::new();
     a.keep_log = false;
     a.check_invariants = false;
@@ -98,6 +100,17 @@ fn roundtrip(lines: &[String], replies: &[String], seed: u64, run: bool, stats: 
     }
     if !accepted_any {
         return Ok(false);
+    }
+    if churn {
+        // an editing session: list, delete a line, enter it again with other text, list again
+        let first = list_of(&mut a);
+        if let Some(l) = first.get(first.len() / 2) {
+            if let Some((n, _)) = abasic_core::verif_hooks::parse_line_number(l) {
+                a.call(Op::Line(format!("{}", n)));
+                let _ = list_of(&mut a);
+                a.call(Op::Line(format!("{} PRINT \"second\" : DATA \"second\", 2", n)));
+            }
+        }
     }
     let l1 = list_of(&mut a);
     if l1.is_empty() {
